@@ -1,7 +1,7 @@
 (* Proofs about the IEEE-754 part of the values model (Model/Floats.v).
    (A) f64_to_f32_correct : real-number characterisation of binary64 -> binary32 (RNE, overflow
        threshold T32 = 2^128 - 2^103), via the generic lemma round_overflow_iff.
-   (B) bit-level / exact-number consequences (narrow_*, xnum_of_f64_*, int_to_f64_*).
+   (B) bit-level and exact-number consequences (narrow_bits, xnum_of_f64, int_to_f64 lemmas).
    (C) round trips narrow_bits (widen_bits u) = u, widen_bits_range, widen_not_inf.
    No axioms beyond the stdlib Reals axioms pulled in by Flocq. *)
 From Coq Require Import ZArith List Bool Lia Reals Psatz.
